@@ -68,3 +68,8 @@ package xsub
 //@   ensures cast("*socket", result).sizeQ != nil && !closed(cast("*socket", result).sizeQ)
 //@
 // ---- end generated default contracts ----
+// ---- generated current-queue contracts (from `govc sites -select`): the select uses the socket's queues as of the last time the lock was held ----
+//@ func (*socket).RecvMsg
+//@   before select#1 assert selwaits(s.sizeQ) && selwaits(s.recvQ)
+//@
+// ---- end generated current-queue contracts ----
